@@ -392,6 +392,46 @@ fn judge(ctx: &Ctx, module: &str, name: &str, k: Kind, ops: &[u64], out: &Outcom
     }
 }
 
+/// "start from a non-initial state": the procedure runs on `first`, its result is dropped, then it
+/// runs on `ops` in the same execution (same frame: locals of the second call occupy the memory the
+/// first call left behind - `u256::mul_unsafe` has six local words). Only the second result is judged.
+fn compile_chain(module: &str, name: &str, result_words: usize) -> Program {
+    let drops = "dropw ".repeat(result_words);
+    let src = format!("use.std::math::{module}\nbegin\n    exec.{module}::{name}\n    {drops}\n    exec.{module}::{name}\nend");
+    assembler()
+        .compile(&src)
+        .unwrap_or_else(|e| panic!("SUBJECT: family program must assemble: {src}: {e}"))
+}
+
+fn judge_chain(ctx: &Ctx, module: &str, name: &str, prog: &Program, first: &[u64], ops: &[u64], verbose: bool) -> &'static str {
+    let mut st = first.to_vec();
+    st.extend_from_slice(&inputs(ops));
+    let out = run_program(prog, &st, &[]);
+    let case = json!({"module": module, "proc": name, "ops": ops, "first_ops": first});
+    let want = match reference(module, name, ops) {
+        Exp::Ok(r) => expected_stack(ops, &r),
+        Exp::Fail => unreachable!("the chained procedures have no failing operands"),
+    };
+    if verbose {
+        println!("expected: success, final stack (zeros below) = {}", hex(&want));
+        match &out {
+            Outcome::Ok(s) => println!("observed: success, final stack = {}", hex(s)),
+            o => println!("observed: {}", o.brief()),
+        }
+    }
+    match &out {
+        Outcome::Ok(s) if strip_zeros(s) == &want[..] => "ok_match",
+        o => {
+            ctx.fail(
+                json!({"kind": "wrong_result_on_second_call", "proc": format!("std::math::{module}::{name}")}),
+                format!("{module}::{name} after a first call on {}: operands(top first)={} observed {} expected {}", hex(first), hex(ops), o.brief(), hex(&want)),
+                case,
+            );
+            "wrong_result_on_second_call"
+        }
+    }
+}
+
 // ------------------------------------------------------------------------------------------------
 // operand sets
 // ------------------------------------------------------------------------------------------------
@@ -606,6 +646,17 @@ pub fn run(ctx: &Ctx, replay: Option<&Value>) -> i32 {
         let name = case["proc"].as_str().expect("case.proc");
         let ops: Vec<u64> = case["ops"].as_array().expect("case.ops").iter().map(|x| x.as_u64().unwrap()).collect();
         let k = kind_of(module, name);
+        if let Some(first) = case["first_ops"].as_array() {
+            let first: Vec<u64> = first.iter().map(|x| x.as_u64().unwrap()).collect();
+            let words = match reference(module, name, &ops) {
+                Exp::Ok(r) => r.len().div_ceil(4),
+                Exp::Fail => 0,
+            };
+            println!("program: exec.{module}::{name}, drop the result, exec.{module}::{name}");
+            let class = judge_chain(ctx, module, name, &compile_chain(module, name, words), &first, &ops, true);
+            println!("verdict for this case: {class}");
+            return ctx.finish("exploration", json!({}), &[]);
+        }
         let prog = compile(module, name);
         println!("program: use.std::math::{module} begin exec.{module}::{name} end");
         println!("stack inputs (top first) = {}", hex(&inputs(&ops)));
@@ -689,6 +740,31 @@ pub fn run(ctx: &Ctx, replay: Option<&Value>) -> i32 {
                 "reference": match reference(module, name, ops) { Exp::Ok(r) => hex(&r), Exp::Fail => "must fail".into() },
             }));
         }
+    }
+
+    // second call in one execution: the 256-bit procedures whose result is 8 limbs (two words)
+    {
+        let t0 = std::time::Instant::now();
+        let firsts: Vec<Vec<u64>> = vec![[vec![M32; 8], vec![M32; 8]].concat(), (1..=16u64).map(|i| i * 0x0101_0101).collect()];
+        let step = ctx.tier.pick(bin256.len() / 60 + 1, bin256.len() / 600 + 1);
+        let mut classes: BTreeMap<&'static str, u64> = BTreeMap::new();
+        let mut n = 0u64;
+        for name in ["add_unsafe", "sub_unsafe", "and", "or", "xor", "mul_unsafe"] {
+            let prog = compile_chain("u256", name, 2);
+            let cases: Vec<(&Vec<u64>, &Vec<u64>)> = firsts.iter().flat_map(|f| bin256.iter().step_by(step).map(move |o| (f, o))).collect();
+            let res: Vec<&'static str> = cases.par_iter().map(|(f, o)| judge_chain(ctx, "u256", name, &prog, f, o, false)).collect();
+            for c in res {
+                *classes.entry(c).or_insert(0) += 1;
+                *class_hist.entry(c).or_insert(0) += 1;
+                n += 1;
+            }
+        }
+        evaluations += n;
+        nontrivial += n;
+        per_proc.insert(
+            "u256: second call in one execution (add_unsafe, sub_unsafe, and, or, xor, mul_unsafe)".into(),
+            json!({"cases": n, "outcome_classes": classes, "wall_s": (t0.elapsed().as_secs_f64() * 1000.0).round() / 1000.0}),
+        );
     }
 
     // outside the quantifier of the property (amounts 0..=63), recorded only: the doc comments
